@@ -65,24 +65,39 @@ Theorem C15_observes_exactly_commit : forall all ci nextseq sn,
 Proof. exact commit_observes_exactly. Qed.
 Print Assumptions C15_observes_exactly_commit.
 
-(* execute: stated for the sources the reader reports cursed, i.e. cursed AND among the known sources it was asked
-   about (C15_source_cursed_iff).  Full statement "every source whose subject is cursed is absent" is refuted below. *)
-Theorem C15_source_left_out_exec_except_known : forall (P : Type) sup known ci (pending : option (list (N * P))) g' c,
+(* execute (after the repair of F30): with the reader answering for the known sources, every chain whose subject is
+   cursed is absent from the observed commit reports, known source or not *)
+Theorem C15_source_left_out_exec : forall (P : Type) sup S dest all (pending : option (list (N * P))) g' c,
+  exec_observe sup (Some all) (Some (curse_info_of S dest all)) pending = Ok (Some g') ->
+  In (subject_of_chain c) S -> ~ In c (map fst g').
+Proof. exact @exec_cursed_subject_left_out. Qed.
+Print Assumptions C15_source_left_out_exec.
+
+(* the same for an arbitrary reader answer: whatever it reports cursed is absent *)
+Theorem C15_reported_source_left_out_exec : forall (P : Type) sup known ci (pending : option (list (N * P))) g' c,
   exec_observe sup known (Some ci) pending = Ok (Some g') ->
   src_cursed ci c = true -> ~ In c (map fst g').
 Proof. exact @exec_cursed_source_left_out. Qed.
-Print Assumptions C15_source_left_out_exec_except_known.
+Print Assumptions C15_reported_source_left_out_exec.
 
-Theorem C15_source_left_out_exec_refuted :
+Theorem C15_observed_sources_exec : forall (P : Type) sup all ci (pending : option (list (N * P))) g' c,
+  exec_observe sup (Some all) (Some ci) pending = Ok (Some g') ->
+  In c (map fst g') -> In c all /\ src_cursed ci c = false.
+Proof. exact @exec_observed_sources. Qed.
+Print Assumptions C15_observed_sources_exec.
+
+(* the function as it was before the repair kept a cursed chain that is not a known source (finding F30) *)
+Theorem C15_source_left_out_exec_unfixed_refuted :
   exists S dest known (g : list (N * N)),
     In (subject_of_chain 7) S /\
-    exec_observe 1 (Some known) (Some (curse_info_of S dest known)) (Some g) = Ok (Some g) /\ In 7%N (map fst g).
-Proof. exact exec_unknown_cursed_source_kept. Qed.
-Print Assumptions C15_source_left_out_exec_refuted.
+    exec_observe_unfixed 1 (Some known) (Some (curse_info_of S dest known)) (Some g) = Ok (Some g) /\ In 7%N (map fst g).
+Proof. exact exec_unfixed_unknown_cursed_source_kept. Qed.
+Print Assumptions C15_source_left_out_exec_unfixed_refuted.
 
-Theorem C15_other_sources_kept_exec : forall (P : Type) sup known ci (g : list (N * P)) g' kv,
-  exec_observe sup known (Some ci) (Some g) = Ok (Some g') ->
-  In kv g -> src_cursed ci (fst kv) = false -> In kv g'.
+(* nothing else is dropped: reports of known, non-cursed sources stay *)
+Theorem C15_other_sources_kept_exec : forall (P : Type) sup all ci (g : list (N * P)) g' kv,
+  exec_observe sup (Some all) (Some ci) (Some g) = Ok (Some g') ->
+  In kv g -> In (fst kv) all -> src_cursed ci (fst kv) = false -> In kv g'.
 Proof. exact @exec_other_sources_kept. Qed.
 Print Assumptions C15_other_sources_kept_exec.
 
